@@ -124,6 +124,38 @@ def oracle(seed, tier):
         worlds.append((path, w, g, culling_queries(rng, g, w, budget(tier, 150, 400))))
     for (path, w, g) in gen_worlds(rng, wdir, "r", budget(tier, 10, 100), {"with_random": False, "with_lines": True, "allow": ["subducting plate", "fault"], "max_features": 3}):
         worlds.append((path, w, g, g.queries(w, budget(tier, 30, 60))))
+    # bulging trenches: long chords with a sharp bend (the Bezier trench curve leaves the box of its coordinates by up to 0.15 chord lengths) and a slab or fault whose reach
+    # (length + thickness) is much smaller than that bulge; probed on a dense lattice over the coordinates' box +- 120 km, near the surface
+    class _Cart:
+        spherical = False
+    for bi in range(budget(tier, 4, 30)):
+        L = rng.choice([600e3, 1000e3, 1500e3])
+        # the first chord along a coordinate axis: it is then an edge of the coordinates' box and the curve bulges across it, away from the third coordinate
+        az = rng.choice([0.0, 0.5 * math.pi, math.pi, 1.5 * math.pi]) if bi % 4 != 3 else rng.uniform(0, 2 * math.pi)
+        bend = math.radians(rng.choice([50, 65, 73.74, -60, -73.74]))
+        A = [rng.uniform(-5e5, 5e5), rng.uniform(-5e5, 5e5)]
+        B = [A[0] + L * math.cos(az), A[1] + L * math.sin(az)]
+        C = [B[0] + L * math.cos(az + bend), B[1] + L * math.sin(az + bend)]
+        kind = rng.choice(["subducting plate", "fault"])
+        side = rng.choice([-1, 1])
+        w = {"version": "1.1", "features": [{"model": kind, "name": "b", "coordinates": [A, B, C], "dip point": [B[0] - side * 1e6 * math.sin(az), B[1] + side * 1e6 * math.cos(az)],
+                                             "segments": [{"length": rng.choice([20e3, 40e3]), "thickness": [rng.choice([10e3, 20e3])], "angle": [rng.choice([45, 90])]}],
+                                             "composition models": [{"model": "uniform", "compositions": [0]}]}]}
+        path = os.path.join(wdir, "bulge_%d.wb" % bi)
+        json.dump(w, open(path, "w"))
+        # a band of +-0.16 chord lengths around each chord, 3 km apart across it (the slab is 10-20 km thick): the curve and the slab body along it are inside the band
+        qs = []
+        for (P, Q) in ((A, B), (B, C)):
+            ux, uy = (Q[0] - P[0]) / L, (Q[1] - P[1]) / L
+            nt = budget(tier, 50, 90)
+            for i in range(nt):
+                t = (i + 0.5) / nt
+                o = -0.16 * L
+                while o <= 0.16 * L:
+                    d = rng.choice([1e3, 4e3, 9e3])
+                    qs.append(([P[0] + ux * L * t - uy * o, P[1] + uy * L * t + ux * o, 1000e3 - d], d))
+                    o += 3e3
+        worlds.append((path, w, _Cart(), qs))
     lines, meta = [], []
     props = [(4, 0, 0), (1, 0, 0), (2, 0, 0), (2, 1, 0), (5, 0, 0)]
     for wi, (path, w, g, qs) in enumerate(worlds):
